@@ -565,6 +565,54 @@ func (w *world) run(cond func() bool, deadline time.Duration) stopReason {
 		if due {
 			n++
 		}
+		if n > 0 && s.prioMode {
+			// priority schedule: highest priority among the enabled tasks (and the network, when a delivery is due)
+			if s.prioChange == nil {
+				k := 1 + s.sched.intn(4)
+				for i := 0; i < k; i++ {
+					s.prioChange = append(s.prioChange, s.sched.intn(6000))
+				}
+				sort.Ints(s.prioChange)
+				s.netPrio = 100 + s.sched.intn(1<<16)
+			}
+			for _, t := range en {
+				if t.prio == 0 {
+					t.prio = 100 + s.sched.intn(1<<16)
+				}
+			}
+			pick := func() *vsimTask {
+				var best *vsimTask
+				for _, t := range en {
+					if best == nil || t.prio > best.prio {
+						best = t
+					}
+				}
+				if due && (best == nil || s.netPrio >= best.prio) {
+					return nil
+				}
+				return best
+			}
+			best := pick()
+			for s.prioChanged < len(s.prioChange) && s.nSteps >= s.prioChange[s.prioChanged] {
+				// change point: whoever would run now falls below everything else
+				s.prioChanged++
+				if best != nil {
+					best.prio = len(s.prioChange) - s.prioChanged + 1
+				} else {
+					s.netPrio = len(s.prioChange) - s.prioChanged + 1
+				}
+				best = pick()
+			}
+			if best != nil {
+				s.releaseTask(best)
+			} else {
+				ev := w.net.popDue(now)
+				s.trace.addString("net")
+				s.last = nil
+				w.deliver(ev)
+			}
+			continue
+		}
 		if n > 0 {
 			// rotate so that index 0 is the task that ran last (if enabled)
 			continued := false
@@ -1172,6 +1220,7 @@ func (w *world) setup(cfg *runConfig) {
 	w.cfg = cfg
 	w.sim.yieldPPM = cfg.YieldPPM
 	w.sim.holdPPM = cfg.SwitchPPM / 2
+	w.sim.prioMode = w.params["sched_mode"] == 1
 	for side := 0; side < 2; side++ {
 		name := []string{"A", "B"}[side]
 		ep := &endpoint{w: w, side: side, name: name, cfg: cfg.Side[side], streams: map[uint16]*simStream{}}
